@@ -149,10 +149,20 @@ def _param_init_k(mod, name):
   return init
 
 
+TRACE_ON = [False]
+
+
+def _trace_call(mod, x, y):
+  if TRACE_ON[0] and not is_tracer(x) and not is_tracer(y):
+    TRACE.append((tuple(mod.path), np.asarray(x), np.asarray(y)))
+
+
 class _Compact(_Node):
   @nn.compact
   def __call__(self, x):
-    return self._run(x, self._prog()['ops'], None)
+    y = self._run(x, self._prog()['ops'], None)
+    _trace_call(self, x, y)
+    return y
 
 
 class _Setup(_Node):
@@ -196,7 +206,9 @@ class _Setup(_Node):
   def __call__(self, x):
     ops = self._prog()['ops']
     objs = [self._objs.get(i) for i in range(len(ops))]
-    return self._run(x, ops, objs)
+    y = self._run(x, ops, objs)
+    _trace_call(self, x, y)
+    return y
 
 
 CLASSES = {}
